@@ -14,6 +14,8 @@ import io
 import logging
 import os
 import shutil
+import stat
+import threading
 from contextlib import ContextDecorator, ExitStack
 from functools import lru_cache
 from pathlib import Path
@@ -65,6 +67,10 @@ class FilesystemIsolation(ContextDecorator):
             self._tmp = TemporaryDirectory()
             self._created: set[str] = set()
             self._exit_stack = ExitStack()
+            # Many patched functions are implemented on top of other patched functions
+            # (e.g., shutil.move uses os.rename, Path.write_text uses Path.open).  Only the
+            # outermost call knows what the caller asked for, nested calls pass through.
+            self._active = threading.local()
 
     @staticmethod
     def _abspath(path: os.PathLike | str) -> str:
@@ -82,57 +88,185 @@ class FilesystemIsolation(ContextDecorator):
             if p is not None:
                 self._created.discard(self._abspath(p))
 
+    def _is_isolated(self, abs_path: str) -> bool:
+        """Check if a path or one of its parent directories was created in isolation."""
+        current = abs_path
+        while True:
+            if current in self._created:
+                return True
+            parent = os.path.dirname(current)  # noqa: PTH120
+            if parent == current:
+                return False
+            current = parent
+
+    def _creation_root(
+        self,
+        path: os.PathLike | str,
+        action: str = "modify",
+        *,
+        creates_parents: bool = False,
+    ) -> str | None:
+        """Provide the path to clean up if an operation writes to or creates ``path``.
+
+        Args:
+            path: The path that is about to be written or created.
+            action: The verb used in the error message.
+            creates_parents: Whether the operation also creates missing parent directories.
+
+        Returns:
+            The path to clean up: ``path`` itself or, for operations that create
+            parents, the top-most directory that does not exist yet; None if nothing
+            must be cleaned up (special files like ``/dev/null``).
+
+        Raises:
+            PermissionError: If the path exists already but was not created in isolation.
+        """
+        abs_path = self._abspath(path)
+        if self._is_isolated(abs_path):
+            return abs_path
+        try:
+            mode = os.lstat(abs_path).st_mode
+        except (OSError, ValueError):
+            current = abs_path
+            while creates_parents:
+                parent = os.path.dirname(current)  # noqa: PTH120
+                if parent == current or os.path.lexists(parent):
+                    break
+                current = parent
+            return current
+        if not (stat.S_ISREG(mode) or stat.S_ISDIR(mode) or stat.S_ISLNK(mode)):
+            # Devices, pipes and sockets are written to, not created: nothing to clean up.
+            return None
+        raise PermissionError(f"Attempted to {action} non-isolated path: {abs_path}")
+
+    def _is_nested_call(self) -> bool:
+        return getattr(self._active, "depth", 0) > 0
+
+    def _call_original(
+        self,
+        original_func: Callable,
+        args: tuple,
+        kwargs: dict,
+        roots: list[str],
+        forget_path: os.PathLike | str | None = None,
+    ):
+        """Call the original function and update the bookkeeping afterwards."""
+        self._active.depth = getattr(self._active, "depth", 0) + 1
+        try:
+            res = original_func(*args, **kwargs)
+        except BaseException:
+            # The call (e.g., copytree) may have created parts of its result already.
+            self._update_bookkeeping(
+                original_func, None, [root for root in roots if os.path.lexists(root)]
+            )
+            raise
+        finally:
+            self._active.depth -= 1
+        self._update_bookkeeping(original_func, forget_path, roots)
+        return res
+
+    def _update_bookkeeping(
+        self,
+        original_func: Callable,
+        forget_path: os.PathLike | str | None,
+        roots: list[str],
+    ) -> None:
+        try:
+            # forget first: source and destination may be the same path
+            self._forget(forget_path)
+            self._record_created(*roots)
+        except Exception:  # noqa: BLE001
+            _LOGGER.warning("Failed to update bookkeeping for %s", original_func)
+
     @staticmethod
     def _is_write_mode(mode: str) -> bool:
         """Check if a mode is write mode."""
         return any(ch in mode for ch in ("w", "a", "x", "+"))
 
     @staticmethod
-    def _get_arg(args: tuple, kwargs: dict, index: int | None) -> os.PathLike | str | None:
-        """Fast, heuristic argument resolver: prefer positional, then common kw names."""
+    def _get_arg(
+        args: tuple, kwargs: dict, index: int | None, name: str | None = None
+    ) -> os.PathLike | str | None:
+        """Resolve an argument: prefer positional, then its keyword name.
+
+        Without a keyword name, the common keyword names are tried (heuristic).
+        """
         if index is None:
             return None
         if index < len(args):
             return args[index]
-        for name in COMMON_KW_NAMES:
-            if name in kwargs:
-                return kwargs[name]
+        if name is not None:
+            return kwargs.get(name)
+        for common_name in COMMON_KW_NAMES:
+            if common_name in kwargs:
+                return kwargs[common_name]
         return None
 
-    def _create_tracked_method(
+    def _create_tracked_method(  # noqa: PLR0913
         self,
         original_func: Callable,
         *,
         record_arg_idx: int | None = None,
         record_dst_idx: int | None = None,
         forget_arg_idx: int | None = None,
+        record_arg_name: str | None = None,
+        record_dst_name: str | None = None,
+        forget_arg_name: str | None = None,
+        creates_only: bool = False,
+        creates_parents: bool = False,
+        dst_may_be_directory: bool = False,
     ) -> Callable:
-        """Create a tracked wrapper that uses positional indices."""
+        """Create a tracked wrapper that uses positional indices (and keyword names).
+
+        Args:
+            original_func: The function to wrap.
+            record_arg_idx: Index of the path argument the function creates or writes.
+            record_dst_idx: Index of the destination path the function creates or writes.
+            forget_arg_idx: Index of the path argument the function removes or moves away.
+            record_arg_name: Keyword name of the argument at ``record_arg_idx``.
+            record_dst_name: Keyword name of the argument at ``record_dst_idx``.
+            forget_arg_name: Keyword name of the argument at ``forget_arg_idx``.
+            creates_only: The function never changes an existing path (mkdir, touch); an
+                existing path is then neither an error nor recorded.
+            creates_parents: The function also creates missing parent directories
+                (makedirs, copytree); the top-most created directory is cleaned up.
+            dst_may_be_directory: The function places the source *into* the destination
+                if that is an existing directory (copy, copy2, move).
+
+        Returns:
+            The tracked wrapper.
+        """
 
         @functools.wraps(original_func)
         def tracked_method(*args, **kwargs):
-            forget_path = self._get_arg(args, kwargs, forget_arg_idx)
+            if self._is_nested_call():
+                return original_func(*args, **kwargs)
+
+            forget_path = self._get_arg(args, kwargs, forget_arg_idx, forget_arg_name)
             if forget_path:
                 abs_forget = self._abspath(forget_path)
                 # only allow modifications of previously-created (isolated) paths
-                if abs_forget not in self._created:
+                if not self._is_isolated(abs_forget):
                     raise PermissionError(f"Attempted to modify non-isolated path: {abs_forget}")
 
-            res = original_func(*args, **kwargs)
+            roots: list[str] = []
+            rec = self._get_arg(args, kwargs, record_arg_idx, record_arg_name)
+            dst = self._get_arg(args, kwargs, record_dst_idx, record_dst_name)
+            if dst is not None and dst_may_be_directory and os.path.isdir(dst):  # noqa: PTH112
+                src = self._get_arg(args, kwargs, 0, forget_arg_name or "src")
+                if src is not None:
+                    name = os.path.basename(os.fspath(src).rstrip(os.sep))  # noqa: PTH119
+                    dst = os.path.join(dst, name)  # noqa: PTH118
+            for target in (rec, dst):
+                if target is None or isinstance(target, int):
+                    continue
+                if creates_only and os.path.lexists(target):
+                    continue
+                root = self._creation_root(target, creates_parents=creates_parents)
+                if root is not None:
+                    roots.append(root)
 
-            try:
-                rec = self._get_arg(args, kwargs, record_arg_idx)
-                dst = self._get_arg(args, kwargs, record_dst_idx)
-                self._record_created(rec, dst)
-            except Exception:  # noqa: BLE001
-                _LOGGER.warning("Failed to update bookkeeping for %s", original_func)
-
-            try:
-                self._forget(forget_path)
-            except Exception:  # noqa: BLE001
-                _LOGGER.warning("Failed to forget path: %s", forget_path)
-
-            return res
+            return self._call_original(original_func, args, kwargs, roots, forget_path or None)
 
         return tracked_method
 
@@ -141,17 +275,23 @@ class FilesystemIsolation(ContextDecorator):
 
         @functools.wraps(original_func)
         def tracked_open(*args, **kwargs):
+            if self._is_nested_call():
+                return original_func(*args, **kwargs)
             # first arg is a path-like or file descriptor
             # second positional arg may be mode, or kwargs['mode']
             file_arg = args[0] if args else kwargs.get("file")
             mode = kwargs.get("mode", args[1] if len(args) > 1 else "r")
-            f = original_func(*args, **kwargs)
-            if isinstance(mode, str) and self._is_write_mode(mode):
-                try:
-                    self._record_created(file_arg)
-                except Exception:  # noqa: BLE001
-                    _LOGGER.warning("Failed to record created file: %s", file_arg)
-            return f
+            roots: list[str] = []
+            if (
+                isinstance(mode, str)
+                and self._is_write_mode(mode)
+                and file_arg is not None
+                and not isinstance(file_arg, int)
+            ):
+                root = self._creation_root(file_arg)
+                if root is not None:
+                    roots.append(root)
+            return self._call_original(original_func, args, kwargs, roots)
 
         return tracked_open
 
@@ -171,14 +311,14 @@ class FilesystemIsolation(ContextDecorator):
 
         @functools.wraps(original_func)
         def tracked_os_open(path, flags, *args, **kwargs):
-            should_record = bool(flags & write_flags)
-            fd = original_func(path, flags, *args, **kwargs)
-            if should_record:
-                try:
-                    self._record_created(path)
-                except Exception:  # noqa: BLE001
-                    _LOGGER.warning("Failed to record created path: %s", path)
-            return fd
+            if self._is_nested_call() or kwargs.get("dir_fd") is not None:
+                return original_func(path, flags, *args, **kwargs)
+            roots: list[str] = []
+            if flags & write_flags:
+                root = self._creation_root(path)
+                if root is not None:
+                    roots.append(root)
+            return self._call_original(original_func, (path, flags, *args), kwargs, roots)
 
         return tracked_os_open
 
@@ -187,41 +327,73 @@ class FilesystemIsolation(ContextDecorator):
 
         @functools.wraps(original_func)
         def tracked_method(path_self, target):
+            if self._is_nested_call():
+                return original_func(path_self, target)
             abs_path = self._abspath(path_self)
-            if abs_path not in self._created:
+            if not self._is_isolated(abs_path):
                 raise PermissionError(f"Attempted to rename/replace non-isolated path: {abs_path}")
-            res = original_func(path_self, target)
-            try:
-                self._forget(path_self)
-                self._record_created(res)
-            except Exception:  # noqa: BLE001
-                _LOGGER.warning(
-                    "Failed to update bookkeeping for rename/replace: %s -> %s", path_self, target
-                )
-            return res
+            root = self._creation_root(target, "rename/replace")
+            return self._call_original(
+                original_func, (path_self, target), {}, [] if root is None else [root], path_self
+            )
 
         return tracked_method
 
     def _initialize_patches(self) -> None:
         """Initialize all patches with tracked wrappers."""
         patches = {
-            (os, "mkdir"): {"record_arg_idx": 0},
-            (os, "makedirs"): {"record_arg_idx": 0},
-            (os, "rename"): {"forget_arg_idx": 0, "record_dst_idx": 1},
-            (os, "replace"): {"forget_arg_idx": 0, "record_dst_idx": 1},
-            (shutil, "copyfile"): {"record_dst_idx": 1},
-            (shutil, "copy"): {"record_dst_idx": 1},
-            (shutil, "copy2"): {"record_dst_idx": 1},
-            (shutil, "copytree"): {"record_dst_idx": 1},
-            (shutil, "move"): {"forget_arg_idx": 0, "record_dst_idx": 1},
-            (Path, "mkdir"): {"record_arg_idx": 0},
-            (Path, "touch"): {"record_arg_idx": 0},
+            (os, "mkdir"): {"record_arg_idx": 0, "record_arg_name": "path", "creates_only": True},
+            (os, "makedirs"): {
+                "record_arg_idx": 0,
+                "record_arg_name": "name",
+                "creates_only": True,
+                "creates_parents": True,
+            },
+            (os, "rename"): {
+                "forget_arg_idx": 0,
+                "forget_arg_name": "src",
+                "record_dst_idx": 1,
+                "record_dst_name": "dst",
+            },
+            (os, "replace"): {
+                "forget_arg_idx": 0,
+                "forget_arg_name": "src",
+                "record_dst_idx": 1,
+                "record_dst_name": "dst",
+            },
+            (shutil, "copyfile"): {"record_dst_idx": 1, "record_dst_name": "dst"},
+            (shutil, "copy"): {
+                "record_dst_idx": 1,
+                "record_dst_name": "dst",
+                "dst_may_be_directory": True,
+            },
+            (shutil, "copy2"): {
+                "record_dst_idx": 1,
+                "record_dst_name": "dst",
+                "dst_may_be_directory": True,
+            },
+            (shutil, "copytree"): {
+                "record_dst_idx": 1,
+                "record_dst_name": "dst",
+                "creates_parents": True,
+            },
+            (shutil, "move"): {
+                "forget_arg_idx": 0,
+                "forget_arg_name": "src",
+                "record_dst_idx": 1,
+                "record_dst_name": "dst",
+                "dst_may_be_directory": True,
+                # moving a directory falls back to copytree, which creates parents
+                "creates_parents": True,
+            },
+            (Path, "mkdir"): {"record_arg_idx": 0, "creates_only": True, "creates_parents": True},
+            (Path, "touch"): {"record_arg_idx": 0, "creates_only": True},
             (Path, "write_text"): {"record_arg_idx": 0},
             (Path, "write_bytes"): {"record_arg_idx": 0},
-            (os, "remove"): {"forget_arg_idx": 0},
-            (os, "unlink"): {"forget_arg_idx": 0},
-            (os, "rmdir"): {"forget_arg_idx": 0},
-            (shutil, "rmtree"): {"forget_arg_idx": 0},
+            (os, "remove"): {"forget_arg_idx": 0, "forget_arg_name": "path"},
+            (os, "unlink"): {"forget_arg_idx": 0, "forget_arg_name": "path"},
+            (os, "rmdir"): {"forget_arg_idx": 0, "forget_arg_name": "path"},
+            (shutil, "rmtree"): {"forget_arg_idx": 0, "forget_arg_name": "path"},
             (Path, "unlink"): {"forget_arg_idx": 0},
             (Path, "rmdir"): {"forget_arg_idx": 0},
         }
@@ -261,6 +433,9 @@ class FilesystemIsolation(ContextDecorator):
         )
         # patch tempfile.tempdir to this tmp
         self._exit_stack.enter_context(patch("tempfile.tempdir", tmpdir))
+
+        # the redirected temporary directory is part of the sandbox
+        self._record_created(tmpdir)
 
         self._initialize_patches()
         return self
